@@ -132,8 +132,56 @@ def apply(F, S, wres):
             S.bad("T4", "getter-wiring", tr.lower(), "<DataItem as %s>::%s returns %s, not its own field" % (tr, tr.lower(), show(r["ret"])), loc(g.span))
 
 
+ONE_PRICE = ["FastStochastic", "SlowStochastic", "TrueRange", "AverageTrueRange", "KeltnerChannel"]
+
+
+def one_price_bar(F, S):
+    """T5: fed a bar whose open = high = low = close = x, the bar path computes what the scalar path computes on x.
+    Both paths are evaluated with every component inlined (no modular step nodes), every getter of the bar is replaced by the
+    scalar argument, and the outputs and all post-state terms are compared by semantic equality (rational normal form;
+    `max(0, |a|) = |a|`).  KeltnerChannel's typical price (x+x+x)/3 equals x in this arithmetic ("within rounding" in the property)."""
+    from norm import equal
+
+    def unbar(t):
+        if not isinstance(t, tuple) or not t:
+            return t
+        if t[0] == "get" and t[1] in ("open", "high", "low", "close"):
+            return ("arg", "a0")
+        return tuple(unbar(x) if isinstance(x, tuple) else x for x in t)
+    for s in ONE_PRICE:
+        fb = [f for f in F.fns_of(s, "next", trait="Next") if f.next_input and f.next_input.startswith("&")]
+        fs = [f for f in F.fns_of(s, "next", trait="Next") if f.next_input == "f64"]
+        if len(fb) != 1 or len(fs) != 1:
+            S.bad("T5", "anchor", s, "%s: expected one Next<&T> and one Next<f64> impl" % s)
+            continue
+        pol = symex.Policy(F, modular=False)
+        try:
+            rb = symex.evaluate(F, fb[0], pol, canon=True)
+            rs = symex.evaluate(F, fs[0], pol, canon=True)
+        except symex.Unsupported as e:
+            S.bad("T5", "unrecognised", s, "UNRECOGNISED idiom while comparing the two input paths of %s: %s" % (s, e), loc(fb[0].span))
+            continue
+        diffs = []
+        ok, cx = equal(unbar(rb["ret"]), rs["ret"])
+        if not ok:
+            diffs.append(("output", show(unbar(rb["ret"]))[:140], show(rs["ret"])[:140]))
+        for k in sorted(set(rb["heap"]) | set(rs["heap"])):
+            if not k.startswith("self"):
+                continue
+            a, b = unbar(rb["heap"].get(k, ("pre", k))), rs["heap"].get(k, ("pre", k))
+            ok, cx = equal(a, b)
+            if not ok:
+                diffs.append((k, show(a)[:140], show(b)[:140]))
+        if diffs:
+            k, a, b = diffs[0]
+            S.bad("T5", "one-price-bar", s, "%s: fed a one-price bar, the bar path gives `%s` = %s but the scalar path gives %s (%d term(s) differ)" % (s, k, a, b, len(diffs)), loc(fb[0].span))
+        else:
+            S.ok("T5", "%s: bar path on (x, x, x, x) = scalar path on x" % s, compared=1 + len([k for k in rb["heap"] if k.startswith("self")]))
+
+
 def run(tier, repo=None, tag="repo"):
     rep = Report("C10", tier)
+    rep.rule("T5", "FastStochastic, SlowStochastic, TrueRange, ATR, KeltnerChannel: the bar path on a one-price bar equals the scalar path (outputs and every post-state term, real-arithmetic normal form)", 5)
     rep.rule("T1", "each Next<&T> impl is generic in one bar type T bounded only by crate getter traits, and every getter reachable from the bar path is documented", 22)
     rep.rule("T1w", "rustc accepts a bar type implementing exactly the documented getters (witness; a rejection alone is a C19 matter)", 0)
     rep.rule("T2", "the 13 delegating bar paths are exactly self.next(input.<documented getter>())", 13)
@@ -145,6 +193,7 @@ def run(tier, repo=None, tag="repo"):
         rep.violation("C10:witness-build:%s" % cfg, "T1", "witness build failed [%s]: %s" % (cfg, dg.get("message")))
     try:
         apply(F, Sink(rep), wres)
+        one_price_bar(F, Sink(rep))
     except symex.Unsupported as e:
         rep.violation("C10:unrecognised", "T2", "UNRECOGNISED idiom: %s" % e)
     rep.configs = ["default"]
@@ -152,6 +201,6 @@ def run(tier, repo=None, tag="repo"):
     rep.explanation = ("parametricity: a bar impl generic in T with only the documented getter bounds can observe T through nothing else (decided by rustc on "
                        "a witness bar type implementing exactly those getters, and by the impl's generics in the fact base); delegating paths are shown to be "
                        "exactly self.next(input.g()) by symbolic evaluation; non-delegating paths' reachable getter sets are compared with the table. "
-                       "NOT decided: one-price bar == scalar path for FastStochastic/SlowStochastic/TrueRange/ATR/KeltnerChannel (needs f64 algebra)")
+                       "one-price bar == scalar path: both paths evaluated fully inlined and compared term by term after replacing every getter by the scalar argument (T5)")
     rep.assumptions = ["user getters are pure (&self)", "which component each getter's value flows to is checked by C02/C03 feed rules"]
     return rep
